@@ -383,8 +383,9 @@ Definition roots (tr : list tev) : nat := length (filter is_root tr).
    extracted function, on the traces of the real library (tools/k2t.py).
    State: the live frames as a stack (innermost first), each with its live locals (a stack), its
    registered-and-not-yet-run cleanups (a stack) and the cleanup currently running. *)
-Record lst := { l_n : nat; l_locals : list nat; l_pend : list nat; l_cur : option nat }.
-Definition mklst n ls ps c : lst := {| l_n := n; l_locals := ls; l_pend := ps; l_cur := c |}.
+Record lst := { l_n : nat; l_locals : list nat; l_pend : list nat; l_cur : option nat;
+                l_ran : bool (* a cleanup of this frame has started: nothing may be constructed or registered any more *) }.
+Definition mklst n ls ps c b : lst := {| l_n := n; l_locals := ls; l_pend := ps; l_cur := c; l_ran := b |}.
 Definition quiet (s : lst) : bool :=
   match l_pend s, l_cur s with [], None => true | _, _ => false end.
 
@@ -441,33 +442,33 @@ Definition mon_step (m : mst) (e : tev) : option mst :=
         | Some _ => None
         | None =>
             if Nat.eqb n (m_next m) then
-              Some {| m_live := mklst n [] [] None :: m_live m; m_next := S n; m_root := m_root m; m_opd := m_opd m;
+              Some {| m_live := mklst n [] [] None false :: m_live m; m_next := S n; m_root := m_root m; m_opd := m_opd m;
                       m_stopped := m_stopped m; m_wait := None; m_expect := None; m_dead := false |}
             else None
         end
     | TLocalCtor n id =>
         if m_root m then None else
-        frame_ev m n (fun s => match l_cur s with
-                               | None => Some (mklst (l_n s) (id :: l_locals s) (l_pend s) None)
-                               | Some _ => None end)
+        frame_ev m n (fun s => match l_cur s, l_ran s with
+                               | None, false => Some (mklst (l_n s) (id :: l_locals s) (l_pend s) None false)
+                               | _, _ => None end)
     | TLocalDtor n id =>
         if m_root m && negb (m_opd m) then None else
         frame_ev m n (fun s => match l_cur s, l_locals s with
-                               | None, id' :: ls => if Nat.eqb id id' then Some (mklst (l_n s) ls (l_pend s) None) else None
+                               | None, id' :: ls => if Nat.eqb id id' then Some (mklst (l_n s) ls (l_pend s) None (l_ran s)) else None
                                | _, _ => None end)
     | TCleanupReg n c =>
         if m_root m then None else
-        frame_ev m n (fun s => match l_cur s with
-                               | None => Some (mklst (l_n s) (l_locals s) (c :: l_pend s) None)
-                               | Some _ => None end)
+        frame_ev m n (fun s => match l_cur s, l_ran s with
+                               | None, false => Some (mklst (l_n s) (l_locals s) (c :: l_pend s) None false)
+                               | _, _ => None end)
     | TCleanupRun n c =>
         if m_root m then None else
         frame_ev m n (fun s => match l_cur s, l_pend s with
-                               | None, c' :: ps => if Nat.eqb c c' then Some (mklst (l_n s) (l_locals s) ps (Some c)) else None
+                               | None, c' :: ps => if Nat.eqb c c' then Some (mklst (l_n s) (l_locals s) ps (Some c) true) else None
                                | _, _ => None end)
     | TCleanupEnd n c =>
         if m_root m then None else
-        frame_ev m n (fun s => if nat_eq_opt (l_cur s) c then Some (mklst (l_n s) (l_locals s) (l_pend s) None) else None)
+        frame_ev m n (fun s => if nat_eq_opt (l_cur s) c then Some (mklst (l_n s) (l_locals s) (l_pend s) None (l_ran s)) else None)
     | TFrameDestroyed n =>
         if m_root m && negb (m_opd m) then None else
         match m_wait m, m_live m with
